@@ -12,7 +12,7 @@ correspondence stream); byte strings under ASCII case folding; no bound on list 
 Clauses the unchanged tree violates are in `Witness.lean` (`…_full_fails`), their provable
 parts here under an explicit decidable exclusion.
 -/
-import CaddyModel.C06.PathLemmas
+import CaddyModel.C06.GlobLemmas
 import CaddyModel.C06.Witness
 
 namespace CaddyModel.C06
@@ -94,10 +94,33 @@ theorem matchHost_padding_invariant (thr : Nat) (l extra : List Bytes) (h : Byte
   have : extra.any (entryMatches (canonHost h)) = false := List.any_eq_false.mpr (fun e he => by simp [hx e he])
   rw [this, Bool.or_false]
 
+
+/-- **whatever `sort.Slice` does.** The large-list code path is correct for EVERY slice that is a
+    sorted permutation of the lower-cased entries, not just for the one the model's insertion
+    sort produces (`sort.Slice` is not stable; this theorem makes that irrelevant). -/
+theorem matchHost_independent_of_sort_algorithm (thr : Nat) (l m : List Bytes) (rhost : Bytes)
+    (hl : l.length > thr) (hperm : m.Perm (l.map lowerExact)) (hs : Sorted m) :
+    matchHost thr m rhost = l.any (entryMatches (canonHost rhost)) := by
+  rw [matchHost_sorted thr l m rhost hl hperm hs]
+  unfold canonHost
+  have : entryMatches (lower (stripPort rhost)) = entryMatches (stripPort rhost) :=
+    funext (entryMatches_lower _)
+  rw [this]
+
 /-! ## path.Clean / cleanPath -/
 
 /-- `path.Clean` is idempotent -/
 theorem pathClean_idempotent (p : Bytes) : pathClean (pathClean p) = pathClean p := pathClean_idem p
+
+
+/-- `cleanPath` (hence the canonical form used by the matchers) is idempotent -/
+theorem cleanPath_idempotent (p : Bytes) : cleanPath (cleanPath p) = cleanPath p := cleanPath_idem p
+
+/-- **what a cleaned request path looks like**: `/` followed by ordinary segments (non-empty, not
+    `.`, not `..`, slash-free) joined by single slashes — no dot segment survives -/
+theorem pathClean_rooted_form (p : Bytes) (hr : isRooted p = true) :
+    ∃ segs : List Bytes, pathClean p = cSlash :: joinSep cSlash segs ∧
+      ∀ s, s ∈ segs → normalSeg s = true := pathClean_rooted_spec p hr
 
 /-- **a duplicated slash never changes the cleaned path** -/
 theorem cleanPath_dup_slash (a b : Bytes) :
@@ -293,6 +316,64 @@ theorem matchPath_size_invariant (l l' : List Bytes) (p e : Bytes) :
     pathCase (l ++ l') p e = (pathCase l p e || pathCase l' p e) := by
   rw [pathCase_eq_any, pathCase_eq_any, pathCase_eq_any, List.any_append]
 
+
+/-! ## documented pattern rules on the canonical path (the shapes that are not globs) -/
+
+/-- `*` matches every request -/
+theorem matchPath_star_rule (p e : Bytes) : pathCase [star] p e = true := by
+  rw [pathCase_eq_any]; simp [lower_star, patMatches_star]
+
+/-- a pattern of literal bytes matches exactly the requests whose canonical path it is -/
+theorem matchPath_exact_rule (pat p e : Bytes) (hl : lower pat = pat) (hp : plainPat pat = true)
+    (h1 : pat.contains cPct = false) (h2 : containsSub pat [cSlash, cSlash] = false) :
+    pathCase [pat] p e = (canonPath p == pat) := by
+  rw [pathCase_eq_any]
+  simp only [List.any_cons, List.any_nil, Bool.or_false]
+  rw [hl, patMatches_exact _ _ _ hp h1 h2]; rfl
+
+/-- `pre*` matches exactly the requests whose canonical path starts with `pre` -/
+theorem matchPath_prefix_rule (pre p e : Bytes) (hl : lower pre = pre) (hp : plainPat pre = true) (hne : pre ≠ [])
+    (h1 : (pre ++ [cStar]).contains cPct = false) (h2 : containsSub (pre ++ [cStar]) [cSlash, cSlash] = false) :
+    pathCase [pre ++ [cStar]] p e = true ↔ ∃ rest, canonPath p = pre ++ rest := by
+  rw [pathCase_eq_any]
+  simp only [List.any_cons, List.any_nil, Bool.or_false]
+  have : lower (pre ++ [cStar]) = pre ++ [cStar] := by rw [lower_append, hl]; rfl
+  rw [this, patMatches_prefix _ _ _ hp hne h1 h2, hasPrefix_iff]; rfl
+
+/-- `*suf` matches exactly the requests whose canonical path ends with `suf` -/
+theorem matchPath_suffix_rule (suf p e : Bytes) (hl : lower suf = suf) (hp : plainPat suf = true) (hne : suf ≠ [])
+    (h1 : (cStar :: suf).contains cPct = false) (h2 : containsSub (cStar :: suf) [cSlash, cSlash] = false) :
+    pathCase [cStar :: suf] p e = true ↔ ∃ front, canonPath p = front ++ suf := by
+  rw [pathCase_eq_any]
+  simp only [List.any_cons, List.any_nil, Bool.or_false]
+  have : lower (cStar :: suf) = cStar :: suf := by rw [lower_cons, hl]; rfl
+  rw [this, patMatches_suffix _ _ _ hp hne h1 h2, hasSuffix_iff]; rfl
+
+/-- `*mid*` matches exactly the requests whose canonical path contains `mid` -/
+theorem matchPath_substring_rule (mid p e : Bytes) (hl : lower mid = mid) (hp : plainPat mid = true)
+    (h1 : (cStar :: mid ++ [cStar]).contains cPct = false)
+    (h2 : containsSub (cStar :: mid ++ [cStar]) [cSlash, cSlash] = false) :
+    pathCase [cStar :: mid ++ [cStar]] p e = true ↔ ∃ front back, canonPath p = front ++ mid ++ back := by
+  rw [pathCase_eq_any]
+  simp only [List.any_cons, List.any_nil, Bool.or_false]
+  have : lower (cStar :: mid ++ [cStar]) = cStar :: mid ++ [cStar] := by
+    rw [List.cons_append, lower_cons, lower_append, hl]; rfl
+  rw [this, patMatches_substring _ _ _ hp h1 h2, containsSub_iff]; rfl
+
+/-! ## the recursion budgets of the model are never exhausted -/
+
+/-- `path.Match` terminates within its budget (one unit per chunk) -/
+theorem globMatch_never_runs_out_of_fuel (pattern name : Bytes) : globMatch pattern name ≠ .fuel :=
+  globLoop_no_fuel _ _ _ (Nat.le_succ _)
+
+/-- the lock-step loop of `matchPatternWithEscapeSequence` terminates within its budget -/
+theorem escLoop_never_runs_out_of_fuel (pat ep : Bytes) : escLoop (pat.length + 1) pat ep [] ≠ .fuel :=
+  escLoop_no_fuel _ _ _ _ (Nat.le_succ _)
+
+/-- `matchChunk` and the character-class parser terminate within their budgets -/
+theorem matchChunk_never_runs_out_of_fuel (chunk s : Bytes) : matchChunk chunk.length chunk s false ≠ .fuel :=
+  matchChunk_no_fuel _ _ _ _ (Nat.le_refl _)
+
 /-! ## MatchPathRE -/
 
 /-- the expression only ever sees the cleaned path -/
@@ -336,5 +417,15 @@ example : matchPathRE .pre [47, 97, 112, 105] [47, 120, 47, 46, 46, 47, 47, 97, 
 example : mergingPatterns [[47, 97, 112, 105, 47, 42], [47, 97, 37, 50, 102, 98, 47, 42]] = true ∧ unescapedPatterns [[47, 97, 112, 105, 47, 42], [47, 97, 37, 50, 102, 98, 47, 42]] = false := by decide
 example : pathCase [[47, 97, 37, 50, 102, 98, 47, 42]] [47, 120, 47, 46, 46, 47, 47, 97, 47, 98, 47, 46, 47, 99] [47, 120, 47, 46, 46, 47, 47, 97, 37, 50, 70, 98, 47, 46, 47, 99] = true := by decide
 example : normalSeg (lower [122, 122, 57]) = true := by decide
+
+example : lower [47, 97, 100, 109, 105, 110] = [47, 97, 100, 109, 105, 110] ∧ plainPat [47, 97, 100, 109, 105, 110] = true ∧ [47, 97, 100, 109, 105, 110].contains cPct = false ∧
+    containsSub [47, 97, 100, 109, 105, 110] [cSlash, cSlash] = false := by decide
+example : pathCase [[47, 97, 100, 109, 105, 110]] [47, 47, 65, 100, 109, 105, 110] [47, 47, 65, 100, 109, 105, 110] = true := by decide
+example : pathCase [[47, 97, 100, 109, 105, 110] ++ [cStar]] [47, 120, 47, 46, 46, 47, 65, 68, 77, 73, 78, 47, 112, 97, 110, 101, 108] [47, 120, 47, 46, 46, 47, 65, 68, 77, 73, 78, 47, 112, 97, 110, 101, 108] = true := by decide
+example : pathCase [cStar :: [46, 112, 104, 112]] [47, 97, 47, 46, 47, 73, 110, 100, 101, 120, 46, 80, 72, 80] [47, 97, 47, 46, 47, 73, 110, 100, 101, 120, 46, 80, 72, 80] = true := by decide
+example : pathCase [cStar :: [115, 101, 99, 114, 101, 116] ++ [cStar]] [47, 97, 47, 83, 69, 67, 82, 69, 84, 45, 102, 105, 108, 101, 115, 47, 120] [47, 97, 47, 83, 69, 67, 82, 69, 84, 45, 102, 105, 108, 101, 115, 47, 120] = true := by decide
+example : globMatch [47, 97, 47, 42, 47, 91, 99, 45, 101, 93, 63] [47, 97, 47, 120, 121, 122, 47, 100, 113] = .yes ∧ globMatch [47, 97, 47, 42, 47, 91, 99, 45] [47, 97, 47, 120, 121, 122, 47, 100, 113] = .bad := by decide
+example : Sorted (sortHosts ([[69, 120, 97, 109, 112, 108, 101, 46, 99, 111, 109], [98, 46, 116, 101, 115, 116], [42, 46, 99, 46, 116, 101, 115, 116]].map lowerExact)) := sortHosts_sorted _
+example : isRooted [47, 120, 47, 46, 46, 47, 65, 68, 77, 73, 78, 47, 112, 97, 110, 101, 108] = true := by decide
 
 end CaddyModel.C06
